@@ -397,6 +397,12 @@ def rule_roundtrip(ctx) -> None:
     def lv(c: ast.Call, ev):
         if norm(c.func) == "get_hash_length" and len(c.args) == 1:
             return {"sha256": 32, "sha384": 48, "sha512": 64}.get(ev.ev(c.args[0]).label.lower(), 0)
+        if norm(c.func) == "datetime.now" and not c.args:
+            return _oe.Obj(_now=1)
+        if isinstance(c.func, ast.Attribute) and c.func.attr == "timestamp" and not c.args:
+            o = ev.ev(c.func.value)
+            if isinstance(o, _oe.Obj) and "_now" in o.__dict__:
+                return 1234567.0  # "now" is a leaf (a time stamp of 0 counts as "not given" in this constructor)
         return _oe.NOT_MODELLED
     roundtrip.check_classes(ctx, "C05.header-roundtrip", IMG, [("SecureBinary31Header", [
         {"firmware_version": 5, "hash_type": H.SHA256, "description": "hello", "timestamp": 0x1122334455, "is_nxp_container": False, "flags": 0,
